@@ -61,6 +61,7 @@ while the word **local** refers to within the current coordinate system defined 
 current grid.
 """
 # ruff: noqa: F401
+import re
 from typing import Optional, Tuple
 
 from armi.reactor.grids.axial import AxialGrid
@@ -90,7 +91,9 @@ def locatorLabelToIndices(label: str) -> Tuple[int, int, Optional[int]]:
 
     If there are only i,j  indices, make the last item None
     """
-    intVals = tuple(int(idx) for idx in label.split("-"))
-    if len(intVals) == 2:
-        intVals = (intVals[0], intVals[1], None)
-    return intVals
+    # indices may be negative (e.g. "-01-002"), so a bare split on "-" is not enough
+    match = re.fullmatch(r"(-?\d+)-(-?\d+)(?:-(-?\d+))?", label.strip())
+    if match is None:
+        raise ValueError(f"Invalid locator label: `{label}`")
+    i, j, k = match.groups()
+    return (int(i), int(j), None if k is None else int(k))
